@@ -528,6 +528,78 @@ def check_c09p(trace, res: Result, hs: Hasher):
         res.probes["program with a data cache compared across modes"] += 1
 
 
+# ---------------------------------------------------------------------------
+# C12 (program clause): the invariant at the end of programs, in both modes
+
+
+def check_c12p(trace, res: Result, hs: Hasher):
+    """The access histories of C12 include those that *programs* issue: in each pipeline mode the run with the data
+    cache is compared, at its end, with the run without it (whose flat memory is the logical content): write-through -
+    backing memory and every resident word equal the logical content; write-back - every resident word equals it, and
+    backing memory equals it outside resident blocks.  Cache on versus off within one mode: whether the modes agree
+    with each other is C02's business, whether reads return the right values C03's."""
+    dc = trace["cfg"]["dc"]
+    base = run_ref(trace, None, None)
+    if base["capped"]:
+        res.discarded = "reference hit the step cap"
+        return
+    n = len(base["recs"])
+    pairs = {
+        "single": (base, run_ref(trace, dc, None)),
+        "five": (run_five(trace, True, None, None, max_ticks=_tick_cap(n)), run_five(trace, True, dc, None, max_ticks=_tick_cap(n))),
+    }
+    _hash_ticks(hs, pairs["five"][1]["ticks"])
+    _cover(res, pairs["five"][1])
+    res.sim["ticks"] += len(pairs["five"][1]["ticks"])
+    res.sim["retired"] += n
+    prog = trace["prog"]
+    nst = sum(1 for rec in base["recs"] if 0 <= rec[1] < len(prog) and ir.klass(prog[rec[1]]) == "store")
+    res.nontrivial = n >= 3 and nst >= 1
+    for f in trace.get("plan", {}).get("faults", []):
+        res.faults[f"F-instr:{f['kind']}@{f['placement']}"] += 1
+    for mode, (off, on) in pairs.items():
+        if off["exc"] or on["exc"] or not off.get("done", True) or not on.get("done", True):
+            # a rejected access ends the program; what the hierarchy looks like after an error in the *program* is
+            # covered by the access histories of memsim (rejected accesses there are followed by further operations)
+            res.probes["program ended with an error or not at all (invariant not evaluated)"] += 1
+            continue
+        ref = {a: int(v) for a, v in off["sim"].state.memory.memory_file.items() if int(v)}
+        mem = on["sim"].state.memory
+        try:
+            back = {a: int(v) for a, v in mem.memory.memory_file.items() if int(v)}
+            resident = {}
+            for st in mem.cache.sets:
+                for b in st.blocks:
+                    if b.valid_bit:
+                        a0 = b.decoded_address.block_alinged_address
+                        for i, wd in enumerate(b.values):
+                            for j in range(4):
+                                resident[(a0 + 4 * i + j) & 0xFFFFFFFF] = (int(wd) >> (8 * j)) & 0xFF
+        except Exception as e:  # noqa: BLE001
+            res.violate("C12", "hierarchy-unreadable", got=f"{type(e).__name__}: {e}"[:200], mode=mode)
+            return
+        hs.add(mode, len(back), len(resident))
+        wt = dc["kind"] == "wt"
+        bad = [(a, v, ref.get(a, 0)) for a, v in sorted(resident.items()) if v != ref.get(a, 0)]
+        if bad:
+            res.violate("C12", "wt-resident-differs" if wt else "wb-resident-wrong", mode=mode, expected=[(hex(a), r_) for a, _, r_ in bad[:4]],
+                        got=[(hex(a), v) for a, v, _ in bad[:4]], note="bytes of resident blocks against the run without the cache")
+            return
+        addrs = set(back) | set(ref)
+        if wt:
+            bad = [(a, back.get(a, 0), ref.get(a, 0)) for a in sorted(addrs) if back.get(a, 0) != ref.get(a, 0)]
+            kind = "wt-backing-stale"
+        else:
+            bad = [(a, back.get(a, 0), ref.get(a, 0)) for a in sorted(addrs) if a not in resident and back.get(a, 0) != ref.get(a, 0)]
+            kind = "wb-lost-value"
+        if bad:
+            res.violate("C12", kind, mode=mode, expected=[(hex(a), r_) for a, _, r_ in bad[:4]], got=[(hex(a), v) for a, v, _ in bad[:4]],
+                        note="backing memory against the run without the cache" + ("" if wt else " (outside resident blocks)"))
+            return
+        if nst:
+            res.probes[f"program with stores: {'write-through' if wt else 'write-back'} invariant holds at the end ({mode})"] += 1
+
+
 def _icache_residency(im):
     """{set index: frozenset of valid tags} of an InstructionMemoryCacheSystem (white-box, no side effects)."""
     return {
@@ -730,6 +802,7 @@ ORACLES = {
     "C08": check_c08,
     "C03": check_c03p,
     "C09": check_c09p,
+    "C12": check_c12p,
     "C11": check_c11p,
     "C15": check_c15p,
 }
